@@ -270,7 +270,7 @@ fn value(exact: bool) -> BoxedStrategy<f64> {
 }
 
 pub fn case_strategy(max_mult: usize) -> impl Strategy<Value = Case> {
-    (0usize..9, proptest::sample::select(vec![1usize, 2, 5]), prop_oneof![4 => 1usize..=64, 1 => proptest::sample::select(vec![100usize, 1000])], any::<bool>(), 0usize..8).prop_flat_map(
+    (0usize..9, proptest::sample::select(vec![1usize, 2, 5]), prop_oneof![4 => 1usize..=64, 1 => proptest::sample::select(vec![100usize, 1000])], any::<bool>(), 0usize..9).prop_flat_map(
         move |(ki, channels, n, exact, profile)| {
             let len = (n * max_mult).min(3000).max(4);
             let push = proptest::collection::vec(value(exact), channels);
@@ -326,6 +326,12 @@ pub fn case_strategy(max_mult: usize) -> impl Strategy<Value = Case> {
                                     *x = if i % 2 == 0 { x.abs() } else { -x.abs() };
                                 }
                             }
+                            8 if !exact && !KINDS[ki].is_int() => {
+                                // float formats: finite input of any magnitude, here up to 8
+                                for x in v.iter_mut() {
+                                    *x *= 8.0;
+                                }
+                            }
                             7 if !exact => {
                                 // quiet throughout: the whole history sits four decades below full scale
                                 for x in v.iter_mut() {
@@ -358,7 +364,7 @@ pub fn case_strategy(max_mult: usize) -> impl Strategy<Value = Case> {
 pub fn run_core(ctx: &mut Ctx) {
     ctx.set_rule(
         "cases are (format out of f32, f64, i16, i32, u8, I24, U48, u64, i64; 1, 2 or 5 channels; window length N in 1..=64 or {100, 1000}, plus constructed cases with N around 2^16 and above; history of push / push-squared / reset operations of up to 50 x N (max 3000) \
-         operations, with value profiles random, loud-then-silent, constant, alternating sign, loud / far quieter but non-zero / reset / ordinary, first channel silent while the others carry on, quiet throughout (x 1e-4); the detector may be replaced by its clone at any point; exact flag = all values on the grid k/64); long single runs of 1e5 (thorough 1e6) pushes; \
+         operations, with value profiles random, loud-then-silent, constant, alternating sign, loud / far quieter but non-zero / reset / ordinary, first channel silent while the others carry on, quiet throughout (x 1e-4), float formats up to amplitude 8; the detector may be replaced by its clone at any point; exact flag = all values on the grid k/64); long single runs of 1e5 (thorough 1e6) pushes; \
          non-trivial: history longer than the window, or a reset after non-zero input, or an integer or multi-channel format",
     );
     ctx.assume("reference = mean of the squares of the exact amplitudes of the last N pushes since the last reset (zero-initialised window), in f64; exact regime (std): next_squared == mean and next == sqrt(mean) exactly; general regime: |next_squared - mean| <= u X^2 (2.2 T (N+1)/N + 5) with u the unit round-off of the format's Float, X the peak since reset, T the pushes since reset; next in [sqrt(max(lo,0))(1-c) - a, sqrt(hi)(1+c) + a] with (c, a) = (4u, 0) for the libm square root and (0.07, 2^-62 / 2^-500) for the no_std approximation");
